@@ -275,7 +275,7 @@ static void do_edit (char *line)
  *   body  : sequence of values V ('-' for none)
  *   V := y HH | b 0/1 | n/q HHHH | i/u/h H8 | x/t/d H16           (little-endian hex of the value)
  *      | s<len>:<hex> | o<len>:<hex> | g<len>:<hex>
- *      | a<siglen>:<sighex>[ V* ]   | A<siglen>:<sighex>[ V* ]     (A: dbus_message_iter_append_fixed_array)
+ *      | a<siglen>:<sighex>[ V* ]   | A<siglen>:<sighex>[ V* ]     (A: dbus_message_iter_append_fixed_array; '|' cuts blocks, '.'V = append_basic)
  *      | ( V* ) | { V V } | v<siglen>:<sighex> V
  */
 static const char *bp;
@@ -300,8 +300,19 @@ static int build_value (DBusMessageIter *it)
           { /* collect fixed-size elements and append them in one go */
             unsigned char buf[4096]; int used = 0, cnt = 0, sz = (sig[0] == 'y') ? 1 : (sig[0] == 'n' || sig[0] == 'q') ? 2 : (sig[0] == 'x' || sig[0] == 't' || sig[0] == 'd') ? 8 : 4;
             const void *pp = buf;
+            /* '|' between elements: what has been collected goes out as one block now (an array may be filled by several
+             * append_fixed_array calls); '.' before an element: that one is appended with append_basic */
             while (*bp != ']')
-              { bp++; if (sig[0] == 'b') { dbus_bool_t v = *bp++ == '1'; memcpy (buf + used, &v, 4); } else { char *h = hexn (sz); memcpy (buf + used, h, sz); free (h); } used += sz; cnt++; }
+              {
+                if (*bp == '|' || *bp == '.')
+                  {
+                    int basic = *bp++ == '.';
+                    if (cnt > 0 && !dbus_message_iter_append_fixed_array (&sub, sig[0], &pp, cnt)) return 0;
+                    used = cnt = 0;
+                    if (basic && !build_value (&sub)) return 0;
+                    continue;
+                  }
+                bp++; if (sig[0] == 'b') { dbus_bool_t v = *bp++ == '1'; memcpy (buf + used, &v, 4); } else { char *h = hexn (sz); memcpy (buf + used, h, sz); free (h); } used += sz; cnt++; }
             if (cnt > 0 && !dbus_message_iter_append_fixed_array (&sub, sig[0], &pp, cnt)) return 0;
           }
         else
